@@ -43,11 +43,12 @@ type Scenario struct {
 	ConnectUp bool     `json:"connect_while_up"` // call Connect while connected (must be refused, harmlessly)
 	Storm     bool     `json:"storm"`            // many quick cycles of coinciding causes (no settle time between them)
 	Calls     string   `json:"calls"`            // what the handlers call while the disconnect is in progress: "" | me | connected
+	DiscClose bool     `json:"disc_close"`       // the DISCONNECTED handler calls Close(): the client is not connected, it must do nothing (and return)
 }
 
 func (s Scenario) Key() string {
 	return fmt.Sprintf("in=%s out=%s/%s handler=%s causes=%s flood=%v reconnect=%s up=%v calls=%s",
-		backlogClass(s.In), backlogClass(s.Out), s.OutBy, s.Handler, strings.Join(s.Causes, "+"), s.Flood, s.Reconnect, s.ConnectUp, s.Calls) + map[bool]string{true: " storm", false: ""}[s.Storm]
+		backlogClass(s.In), backlogClass(s.Out), s.OutBy, s.Handler, strings.Join(s.Causes, "+"), s.Flood, s.Reconnect, s.ConnectUp, s.Calls) + map[bool]string{true: " storm", false: ""}[s.Storm] + map[bool]string{true: " disc-close", false: ""}[s.DiscClose]
 }
 
 var qcap = 32
@@ -266,6 +267,15 @@ func Run(sc Scenario, seed int64) *Result {
 			r.problem("C06", "connected-true-in-DISCONNECTED", "Connected() was true when the DISCONNECTED handler started")
 		}
 		r.event(fmt.Sprintf("DISCONNECTED #%d", n))
+		if sc.DiscClose {
+			done := make(chan struct{})
+			go func() { c.Close(); close(done) }()
+			select {
+			case <-done:
+			case <-time.After(r.deadline):
+				r.problem("C06", "close-when-disconnected-blocks", "Close() called while the DISCONNECTED handlers run (the client is not connected) did not return: "+shortStacks(sess.LibGoroutines()))
+			}
+		}
 		if sc.Reconnect == "handler" && int(n) <= sc.Cycles {
 			atomic.StoreInt32(&r.stopped, 0)
 			r.recon <- r.connect()
@@ -689,6 +699,12 @@ func Families(tier string, rng *rand.Rand) []Scenario {
 	add(Scenario{Reconnect: "other", Cycles: storm / 3, Storm: true, Causes: []string{"cancel"}, In: 3})
 	add(Scenario{Reconnect: "other", Cycles: storm, Storm: true, Causes: []string{"close3", "eof"}})
 	add(Scenario{Reconnect: "other", Cycles: storm / 2, Storm: true, Causes: []string{"close2", "writeerr", "cancel"}, Ping: true})
+	// Close on a client that is not connected does nothing - also from inside the DISCONNECTED handler
+	for _, c := range []string{"close", "eof", "cancel", "writeerr"} {
+		add(Scenario{Causes: []string{c}, In: 5, DiscClose: true, CtxDial: c == "cancel"})
+	}
+	add(Scenario{Causes: []string{"eof"}, DiscClose: true, Reconnect: "handler", Cycles: 2})
+	add(Scenario{Causes: []string{"close"}, DiscClose: true, Reconnect: "other", Cycles: 2})
 	// user goroutines in the middle of a burst when the connection ends, then a reconnect: nothing queued
 	// on the old connection may show up on the new one
 	for _, rc := range []string{"handler", "other"} {
@@ -786,8 +802,9 @@ func RunLife(args []string) int {
 		sb, _ := json.Marshal(sc)
 		fmt.Println("BEGIN " + string(sb))
 		// ConnTrace.tla follows user senders within one connection; a user goroutine that keeps
-		// sending across a reconnect is checked by the scenario's own oracle only
-		traced := tr != nil && !(sc.OutBy == "user" && sc.Reconnect != "none" && sc.Reconnect != "")
+		// sending across a reconnect, and a Close issued from inside the DISCONNECTED handler, are
+		// checked by the scenario's own oracle only
+		traced := tr != nil && !(sc.OutBy == "user" && sc.Reconnect != "none" && sc.Reconnect != "") && !sc.DiscClose
 		if traced {
 			tr.Reset(qcap, sc.Ping)
 		}
